@@ -124,6 +124,36 @@ theorem C09_retention_keeps_newest (s : Eng) (f : LTXFile) (h : s.ltx.getLast? =
   · have hl : 0 < s.ltx.length := List.length_pos_iff.mpr hne
     simp; omega
 
+/-- retention with a backup service configured never removes a file holding a transaction the
+    service has not confirmed: every file whose last TXID is at or above the high-water mark
+    stays (the code keeps even the file that ends exactly at the mark), and so does every file
+    that is not older than the retention period -/
+theorem C09_retention_keeps_unconfirmed (s : Eng) (f : LTXFile) (hf : f ∈ s.ltx)
+    (h : (s.backup = true ∧ s.hwm ≤ f.maxTxid) ∨ f.old = false) :
+    f ∈ (enforceRetention s).ltx := by
+  unfold enforceRetention
+  simp only [List.mem_map, List.mem_filter]
+  obtain ⟨i, hi, hget⟩ := List.mem_iff_getElem.mp hf
+  refine ⟨(f, i), ⟨?_, ?_⟩, rfl⟩
+  · rw [List.mem_iff_getElem]
+    refine ⟨i, by simpa using hi, ?_⟩
+    simp [List.getElem_zipIdx, hget]
+  · rcases h with ⟨hb, hh⟩ | ho
+    · simp [hb]; exact Or.inr hh
+    · simp [ho]
+
+/-- ... and what it does remove is old, not the newest, and — with a backup service — entirely
+    below the high-water mark -/
+theorem C09_retention_removes_only_confirmed (s : Eng) (f : LTXFile) (hf : f ∈ s.ltx)
+    (hgone : f ∉ (enforceRetention s).ltx) :
+    f.old = true ∧ (s.backup = true → f.maxTxid < s.hwm) := by
+  constructor
+  · cases ho : f.old with
+    | true => rfl
+    | false => exact absurd (C09_retention_keeps_unconfirmed s f hf (Or.inr ho)) hgone
+  · intro hb
+    exact Nat.lt_of_not_le fun hle => hgone (C09_retention_keeps_unconfirmed s f hf (Or.inl ⟨hb, hle⟩))
+
 /-! ### the log invariant over engine operations
 
 `LogInv s`: the log of `s` is one chain of files with non-empty TXID ranges whose newest file ends
